@@ -106,11 +106,17 @@ def finish(prop, level, violations, undecided, errors, coverage, assumptions, t0
     os.makedirs(os.path.join(VERIF, 'evidence'), exist_ok=True)
     with open(os.path.join(VERIF, 'evidence', f'{prop}.json'), 'w') as f:
         json.dump(ev, f, indent=1, default=repr)
+    # exit code.  An obligation the verifier could not decide on this tree (code outside the modelled subset,
+    # a renamed function, a slice marker that is gone) is NOT a violation.  When the property's bounded tier ran on
+    # this tree and found nothing, the run still "held on everything explored": exit 0, with the UNDECIDED lines
+    # printed and recorded in the evidence.  Without a bounded tier to fall back on it is exit 2.
+    bounded_ran = bool(coverage.get('evaluations') or (coverage.get('bounded_complement') or {}).get('evaluations')
+                       or (coverage.get('bounded_validation') or {}).get('evaluations'))
     if new_viol:
         code = EXIT_VIOLATION
     elif errors:
         code = EXIT_ERROR
-    elif undecided:
+    elif undecided and not bounded_ran:
         code = EXIT_UNDECIDED
     else:
         code = EXIT_OK
